@@ -14,13 +14,15 @@ import (
 func init() {
 	register(&Prop{
 		ID:          "C15",
-		Explanation: "Decides which request data can reach the bypass decisions: the string given to every skip-auth route regex is, on every path, query- and fragment-free — the Path of url.Parse(u), u cut at the first '?', or u itself under the fact that it contains no '?', where u is the guarded request-URI accessor's result (taint rule, unknown origin = violation); isAllowedMethod is true only for an empty rule method or equality with req.Method, isAllowedRoute only when both predicates hold for the same route element, isAllowedPath returns the negated match exactly under route.negate, and the rule builder upper-cases the method and sets negate from '!='; preflight needs the flag and OPTIONS (C01.R4); isTrustedIP is true only as trustedIPs.Has(ip) for the non-nil, error-free result of GetClientIP(p.realClientIPParser, req); NetSet.Has is true only on a hit of ipNetMap.has for the same address, which is a lookup of Mask(ip, m.mask).String(); AddIPNet inserts IP.String() only into a per-mask map whose mask size was compared equal to the network's (or recurses after creating one with the network's mask), and both sides select the family through getNetMaps; ParseIPNet rejects CIDRs with host bits set. Added during the build: the address used for the trusted-IP decision is parsed from the first comma-separated element of the configured header (R6). Round 3: the host-bit test compares ipNet.IP with the address exactly as parsed (under R5); the header parser exists only under reverse-proxy mode (R7); remote-address rule (R8). Round 4: the operand of the rule match is the decoded path (url.URL.Path), never the percent-encoded spelling (under R1); the operator's skip-auth routes, skip-auth regexes and trusted-IP entries are never rewritten between option loading and the code that compiles them (R9). Round 6: no module code writes Request.RemoteAddr (under R8); the option loader's viper switches are a reviewed closed list (under R9). Round 7: request handling keeps no state of its own between requests — no store, map update, in-place builtin, atomic/sync.Map write or pointer-receiver library call (singleflight, caches) reached from ServeHTTP targets a package-level variable, an object built at start-up, or a constructor variable captured by the handler it returned, declared in the packages implementing this property (RS; a class-wide who-may-write rule with zero instances today: a correct memoisation would be reported until reviewed). Nothing stored into a compiled skip-auth rule is carried over from the previous configured entry (loop-carried value; under R2). Round 8: the per-request ReverseProxy flag that lets X-Forwarded-Uri replace the matched path is the operator's option and nothing else (R10, shared with C16.R3).",
+		Explanation: "Decides which request data can reach the bypass decisions: the string given to every skip-auth route regex is, on every path, query- and fragment-free — the Path of url.Parse(u), u cut at the first '?', or u itself under the fact that it contains no '?', where u is the guarded request-URI accessor's result (taint rule, unknown origin = violation); isAllowedMethod is true only for an empty rule method or equality with req.Method, isAllowedRoute only when both predicates hold for the same route element, isAllowedPath returns the negated match exactly under route.negate, and the rule builder upper-cases the method and sets negate from '!='; preflight needs the flag and OPTIONS (C01.R4); isTrustedIP is true only as trustedIPs.Has(ip) for the non-nil, error-free result of GetClientIP(p.realClientIPParser, req); NetSet.Has is true only on a hit of ipNetMap.has for the same address, which is a lookup of Mask(ip, m.mask).String(); AddIPNet inserts IP.String() only into a per-mask map whose mask size was compared equal to the network's (or recurses after creating one with the network's mask), and both sides select the family through getNetMaps; ParseIPNet rejects CIDRs with host bits set. Added during the build: the address used for the trusted-IP decision is parsed from the first comma-separated element of the configured header (R6). Round 3: the host-bit test compares ipNet.IP with the address exactly as parsed (under R5); the header parser exists only under reverse-proxy mode (R7); remote-address rule (R8). Round 4: the operand of the rule match is the decoded path (url.URL.Path), never the percent-encoded spelling (under R1); the operator's skip-auth routes, skip-auth regexes and trusted-IP entries are never rewritten between option loading and the code that compiles them (R9). Round 6: no module code writes Request.RemoteAddr (under R8); the option loader's viper switches are a reviewed closed list (under R9). Round 7: request handling keeps no state of its own between requests — no store, map update, in-place builtin, atomic/sync.Map write or pointer-receiver library call (singleflight, caches) reached from ServeHTTP targets a package-level variable, an object built at start-up, or a constructor variable captured by the handler it returned, declared in the packages implementing this property (RS; a class-wide who-may-write rule with zero instances today: a correct memoisation would be reported until reviewed). Nothing stored into a compiled skip-auth rule is carried over from the previous configured entry (loop-carried value; under R2). Round 8: the per-request ReverseProxy flag that lets X-Forwarded-Uri replace the matched path is the operator's option and nothing else (R10, shared with C16.R3). Round 8 (class-wide, P12): in the packages implementing this property every named error result that is used at all is examined — compared with nil, returned, stored or handed to a non-formatting function — unless the code validates the value result instead (RE; zero instances today).",
 		NotDecided:  "the regular-expression engine, CIDR mask arithmetic over all addresses, IPv4-mapped IPv6 normalisation inside net.IP (values).",
 		Run:         runC15,
 	})
 }
 
 func runC15(c *Ctx) {
+	c.R.Rule("RE-errors-examined", "in the packages implementing this property every named error result that is used at all is examined, or the value is validated instead (P12, class-wide, round 8)", 1)
+	runErrorsExamined(c, "RE-errors-examined", "pkg/ip")
 	c.R.Rule("RS-no-request-time-state", "request handling writes no state that outlives the request (package-level variables, objects built at start-up, constructor variables captured by handlers) declared in the packages implementing this property", 1)
 	runStateless(c, "RS-no-request-time-state", "main.OAuthProxy", "main.allowedRoute", "pkg/ip")
 	r := c.R
@@ -435,6 +437,16 @@ func (c *Ctx) queryFreeOnPath(rule string, p *walk.Path, dv walk.DV, getURI *ssa
 		return walk.DV{}, false
 	}
 	switch x := r.V.(type) {
+	case *ssa.Extract:
+		// before, _, _ := strings.Cut(uri, "?"): everything in front of the first '?' (the whole string when there is none)
+		if x.Index == 0 {
+			if call, ok := x.Tuple.(*ssa.Call); ok && isStd(&call.Call, "strings", "Cut") {
+				if s, ok := ConstString(call.Call.Args[1]); ok && s == "?" && isURI(p.Op(call.Call.Args[0], p.Op(x.Tuple, r))) {
+					return true, "cut at the first '?' (strings.Cut)"
+				}
+			}
+		}
+		return false, "unrecognised derivation " + r.V.String()
 	case *ssa.Slice:
 		if x.Low == nil && x.High != nil {
 			if s, ok := indexOfQ(p.Op(x.High, r)); ok && p.Same(s, p.Op(x.X, r)) && isURI(s) {
